@@ -251,7 +251,7 @@ class SeqGen:
         if n is None:
             return
         s = self.subs.get(self.canon(n))
-        ids = self.ack_pick(s, r.choice([1, 1, 2, 3, 0])) if s else [str(r.range(1, 5))]
+        ids = self.ack_pick(s, r.choice([1, 1, 2, 3, 0])) if s else ([] if r.chance(1, 3) else [str(r.range(1, 5))])
         if r.chance(1, 25):
             ids.insert(r.below(len(ids) + 1), r.choice(["x", "-1", "", "1.5"]))
         self.emit("ack %s %s" % (hx(n), jl(hx(i) for i in ids)))
@@ -265,7 +265,7 @@ class SeqGen:
         if n is None:
             return
         s = self.subs.get(self.canon(n))
-        ids = self.ack_pick(s, r.choice([1, 1, 2, 3, 0])) if s else [str(r.range(1, 5))]
+        ids = self.ack_pick(s, r.choice([1, 1, 2, 3, 0])) if s else ([] if r.chance(1, 3) else [str(r.range(1, 5))])
         secs = r.choice(self.p.get("mod_secs", [0, 0, 1, 5, 10, 30, 599, 600, 601, 3600, -1]))
         if r.chance(1, 25):
             ids.insert(r.below(len(ids) + 1), r.choice(["x", "-1", ""]))
